@@ -126,7 +126,30 @@ func (s *Sim) execBlock(op Op) {
 	if dt > 600 {
 		s.Stats.Fault("clock_jump")
 	}
+	inject := false
+	if s.ModeB != nil && op.Inject != "" && len(txs) == 1 {
+		if m, ok := txs[0].Meta.(*txMeta); ok && m.Kind == "recv" && len(m.Pkts) == 1 && m.Pkts[0].State == PktInFlight {
+			var idx, mode int
+			if _, err := fmt.Sscanf(op.Inject, "%d:%d", &idx, &mode); err == nil && (mode == faultBefore || mode == faultAfter) {
+				s.ModeB.Reset(map[int]int{idx: mode})
+				inject = true
+			}
+		}
+	}
 	s.produceBlock(txs, dt, op.ID)
+	if inject {
+		m := txs[0].Meta.(*txMeta)
+		p := m.Pkts[0]
+		if len(s.ModeB.Plan.Fired) > 0 {
+			site := s.ModeB.Plan.Calls[s.ModeB.Plan.Fired[0]].Site
+			s.Stats.Fault("injected_error:" + site)
+			s.Stats.Count("rule:C03.injected-in-history")
+			if site != "bank.GetBalance" && p.State == PktReceived && decodeAck(p.Ack).Success {
+				s.violate("C03", "failure-implies-error-ack", "swallowed-failure (random history) site="+site, fmt.Sprintf("packet op=%d: call %s failed (%s) during its delivery but the acknowledgement is a success", p.Origin, site, op.Inject))
+			}
+		}
+		s.ModeB.Reset(nil)
+	}
 }
 
 func (s *Sim) produceBlock(txs []*PendingTx, dtSec int, opID int) {
